@@ -20,6 +20,8 @@ M.klass('Acc', truth='self.truth')
 M.uninterpreted('evalv', [NODE, INT], VAL)
 M.uninterpreted('returns_at', [NODE, INT], BOOL)
 M.uninterpreted('stops_at', [NODE, INT], BOOL)
+M.uninterpreted('breaks_at', [NODE, INT], BOOL)
+M.uninterpreted('continues_at', [NODE, INT], BOOL)
 WHY = 'structural induction: the evaluation of a child node is abstract'
 M.contract('bridgepoint.interpret.ActionWalker.accept', [('self', W), ('node', NODE)], returns=ACC, trusted=True, reason=WHY,
            ensures={'nothing-for-a-missing-child': 'implies(node is None, result is None and self.trace == old(self.trace))',
@@ -42,7 +44,8 @@ M.contract('bridgepoint.interpret.SymbolTable.install_symbol', [('self', SYM), (
 
 M.contract('bridgepoint.interpret.ActionWalker.accept_ReturnNode', [('self', W), ('node', RefT('ReturnNode'))], returns=NONE,
            lets={'n': 'len(self.trace)'},
-           requires={'node': 'node is not None', 'expression-does-not-itself-return': 'node.expression is None or (not returns_at(node.expression, n) and not stops_at(node.expression, n))'},
+           requires={'node': 'node is not None', 'expression-does-not-itself-return': 'node.expression is None or (not returns_at(node.expression, n) and not stops_at(node.expression, n) '
+                                                         'and not breaks_at(node.expression, n) and not continues_at(node.expression, n))'},
            raises=[Raises('ReturnException', when='True',
                           post={'delivers-the-value-of-the-expression': 'implies(node.expression is not None, same(self.return_value, evalv(node.expression, n)))',
                                 'bare-return-delivers-nothing': 'implies(node.expression is None, same(self.return_value, old(self.return_value)))'})],
@@ -50,7 +53,8 @@ M.contract('bridgepoint.interpret.ActionWalker.accept_ReturnNode', [('self', W),
 
 M.contract('bridgepoint.interpret.ActionWalker.accept_BodyNode', [('self', W), ('node', RefT('BodyNode'))], returns=NONE,
            lets={'n': 'len(self.trace)'},
-           requires={'node': 'node is not None and self.symtab is not None and node.block is not None'},
+           requires={'node': 'node is not None and self.symtab is not None and node.block is not None',
+                     'no-break-or-continue-outside-a-loop': 'not breaks_at(node.block, n) and not continues_at(node.block, n)'},
            ensures={'own-scope-entered-and-left': 'self.symtab.depth == old(self.symtab.depth)',
                     'return-and-stop-end-the-body-quietly': 'self.trace == old(self.trace) + [node.block]',
                     'self-bound-to-the-receiving-instance':
@@ -59,3 +63,48 @@ M.contract('bridgepoint.interpret.ActionWalker.accept_BodyNode', [('self', W), (
                     'and self.symtab.installed[len(old(self.symtab.installed))][2] == old(self.symtab.depth) + 1) '
                     'and implies(self.instance is None, self.symtab.installed == old(self.symtab.installed))'},
            modifies=['self.trace', 'self.symtab.depth', 'self.symtab.installed', 'Acc.fgetv', 'Acc.truth'])
+
+# ---- control flow inside a body: blocks, statement lists, break / continue / stop, while
+M.fields({'SymbolTable.blocks': INT, 'Node.statement_list': NODE, 'Node.children': SeqT(NODE), 'Node.expression': NODE, 'Node.block': NODE})
+ct = M.contracts['bridgepoint.interpret.ActionWalker.accept']
+other = 'node is not None and not returns_at(node, len(self.trace)) and not stops_at(node, len(self.trace))'
+ct.raises += [Raises('BreakException', when=other + ' and breaks_at(node, len(self.trace))', post={'recorded': 'self.trace == old(self.trace) + [node]'}),
+              Raises('ContinueException', when=other + ' and not breaks_at(node, len(self.trace)) and continues_at(node, len(self.trace))',
+                     post={'recorded': 'self.trace == old(self.trace) + [node]'})]
+M.contract('bridgepoint.interpret.SymbolTable.enter_block', [('self', SYM)], returns=NONE, trusted=True, reason='block depth abstraction',
+           ensures={'deeper': 'self.blocks == old(self.blocks) + 1'}, modifies=['self.blocks'])
+M.contract('bridgepoint.interpret.SymbolTable.leave_block', [('self', SYM)], returns=NONE, trusted=True, reason='block depth abstraction',
+           requires={'inside-a-block': 'self.blocks > 0'}, ensures={'shallower': 'self.blocks == old(self.blocks) - 1'}, modifies=['self.blocks'])
+for h, exc in (('accept_BreakNode', 'BreakException'), ('accept_ContinueNode', 'ContinueException'), ('accept_ControlNode', 'StopException')):
+    M.contract('bridgepoint.interpret.ActionWalker.' + h, [('self', W), ('node', NODE)], returns=NONE,
+               raises=[Raises(exc, when='True', post={'nothing-else-happens': 'unchanged()'})], modifies=[])
+M.contract('bridgepoint.interpret.ActionWalker.accept_BlockNode', [('self', W), ('node', NODE)], returns=NONE, no_other_exception=False,
+           requires={'node': 'node is not None and node.statement_list is not None and self.symtab is not None and self.symtab.blocks >= 0'},
+           ensures={'own-block-entered-and-left': 'self.symtab.blocks == old(self.symtab.blocks)',
+                    'executes-its-statement-list': 'self.trace == old(self.trace) + [node.statement_list]'},
+           modifies=['self.trace', 'self.symtab.blocks', 'Acc.fgetv', 'Acc.truth'])
+M.spec('''
+def executed(trace, before, kids, k):
+    return (len(trace) == len(before) + k and seq_take(trace, len(before)) == before
+            and all(trace[len(before) + j] is kids[j] for j in range(0, k)))
+''')
+M.contract('bridgepoint.interpret.ActionWalker.accept_StatementListNode', [('self', W), ('node', NODE)], returns=NONE, no_other_exception=False,
+           requires={'node': 'node is not None and all(c is not None for c in node.children)'},
+           ensures={'every-statement-once-in-source-order': 'executed(self.trace, old(self.trace), node.children, len(node.children))'},
+           modifies=['self.trace', 'Acc.fgetv', 'Acc.truth'],
+           loops={0: Loop(inv={'walks-the-children': '_seq == node.children', 'in-order-so-far': 'executed(self.trace, old(self.trace), node.children, _i)'})})
+M.spec('''
+def rounds(trace, base, upto, e, blk):
+    return all(implies((p - base) % 2 == 0, trace[p] is e and bool(evalv(e, p)))
+               and implies((p - base) % 2 == 1, trace[p] is blk and not breaks_at(blk, p)) for p in range(base, upto))
+''')
+M.contract('bridgepoint.interpret.ActionWalker.accept_WhileNode', [('self', W), ('node', NODE)], returns=NONE, no_other_exception=False,
+           lets={'n': 'len(self.trace)'},
+           requires={'node': 'node is not None and node.expression is not None and node.block is not None and node.expression is not node.block'},
+           ensures={'alternates-true-condition-and-body-until-a-false-condition-or-a-break':
+                    'len(self.trace) > n and seq_take(self.trace, n) == old(self.trace) and rounds(self.trace, n, len(self.trace) - 1, node.expression, node.block) and '
+                    '(((len(self.trace) - 1 - n) % 2 == 0 and self.trace[len(self.trace) - 1] is node.expression and not bool(evalv(node.expression, len(self.trace) - 1))) or '
+                    '((len(self.trace) - 1 - n) % 2 == 1 and self.trace[len(self.trace) - 1] is node.block and breaks_at(node.block, len(self.trace) - 1)))'},
+           modifies=['self.trace', 'Acc.fgetv', 'Acc.truth'],
+           loops={0: Loop(inv={'history-kept': 'len(self.trace) >= n and seq_take(self.trace, n) == old(self.trace)',
+                               'whole-rounds-so-far': '(len(self.trace) - n) % 2 == 0 and rounds(self.trace, n, len(self.trace), node.expression, node.block)'})})
